@@ -60,6 +60,28 @@ CHECKS = {
              "model of the finding step by step so any other deviation is still reported.",
         design="7/C13", technique="Coq proof (spec-level + refinement) with a machine-checked refutation witness + differential correspondence run",
         note="Claimed with a known finding (D7). Unknown ids are only reachable over gRPC. " + NOTE_COMMON),
+    "C17": dict(
+        text="Theorems (Coq, every history of any length over Set (with any choice among the candidates and any ENOSPC "
+             "spill), orphaned files, cleaner removals and reopen; any number of roots; any limit >= 1, hence the clamped "
+             "limit >= 100): after the Get phase that every Set starts with, every root has an active directory with room; "
+             "no directory ever holds more than the limit (an entry only goes into a candidate that had room, one per "
+             "directory per call); after the cleaner removed a content of d, d is active, has room, is a candidate of the "
+             "next Set and takes the entry when chosen, and stays a candidate while it has room; every directory and every "
+             "active directory lies under a configured root, and ParseDir(Join(root, name)) = (root, name); repository "
+             "invariants (no duplicates, active directories exist on disk, per-root counter = number of active directories, "
+             "no counter underflow). Tie: seeded histories run against the real inline client (limit 100, configured values "
+             "below 100 included) and the real server application (limit 1-5) on a real file system; after every step at "
+             "pool quiescence the roots are walked and the repository's active set and counters are read through a "
+             "verif-tagged accessor; the extracted model replays the history with the observed choices and must print the "
+             "same per-directory counts, active sets and counters and must allow every observed choice; the property oracle "
+             "(count <= limit, every root offered room when a write was placed, freed directories are active again and get "
+             "written again, placement shape, counter = number of active directories) is evaluated on the observations.",
+        design="7/C17", technique="Coq proof (invariant by induction over operation histories, loop invariants for the two "
+                                  "loops of dir.Get) + full-stack correspondence run on a real file system",
+        note="Sequential histories only. The directory choice (shuffle, free-space filter) is an input of the model, so the "
+             "ENOSPC continuation is covered by the theorems but not exercised by the tie; Go map iteration order is not "
+             "modelled (observations are order-free); roots are assumed distinct after cleaning. The model reproduces that "
+             "reopen re-activates full directories and the next write replaces each by a new empty directory. " + NOTE_COMMON),
     "C18": dict(
         text="Theorems (Coq, unbounded): the binary search over the array mirror equals the linear-scan "
              "specification on every strictly increasing list; the collector loop removes exactly the versions with a "
